@@ -36,6 +36,8 @@ type World struct {
 	LemmaOrd  []string
 	RepoPaths map[string]bool // package paths that belong to the repository (or extracted code)
 	written   map[string]bool // struct fields assigned somewhere after allocation (modref.go); nil = not yet computed
+	funcWrites  map[string]*funcWrites
+	escapedKeys map[string]types.Type
 	writtenMu sync.Mutex
 	EmittedPaths map[string]bool // package paths of extracted emitted code
 	extTypes map[string]types.Type
